@@ -25,7 +25,53 @@ def run(ctx: Ctx) -> Collector:
     _cycle_check(ctx, c)
     _ancestors(ctx, c)
     _interval(ctx, c)
+    _group_scope(ctx, c)
     return c
+
+
+GROUP_CM = "mosaik.scenario.World.group"
+
+
+def _group_scope(ctx: Ctx, c: Collector) -> None:
+    """`with world.group():` blocks nest.  Entering makes a new group whose parent is the group that was current;
+    leaving makes *that* group current again -- so it has to be remembered per block (in a local of the context
+    manager), not in one place that an inner block overwrites: simulators started after an inner block would
+    otherwise land in the wrong group, and cycles that leave the group go undetected."""
+    fi = ctx.prog.functions.get(GROUP_CM)
+    if fi is None:
+        raise AnalysisError(f"R19: {GROUP_CM} not found")
+    s = ctx.summ(GROUP_CM)
+    me = T.var(fi.params[0])
+    cur = ("attr", me, "current_group")
+    ys = s.of_kind("yield")
+    sts = [e for e in s.of_kind("store") if e.term[1] == cur]
+    pr = []
+    if len(ys) != 1 or not sts:
+        c.unk("group-scope", GROUP_CM, "enter / leave", "context manager shape not recognised", fi.loc)
+        return
+    y = ys[0]
+    enter = [e for e in sts if e.idx < y.idx]
+    leave = [e for e in sts if e.idx > y.idx]
+    if not enter:
+        pr.append("no new group becomes current inside the block")
+    else:
+        v = T.strip(enter[-1].term[2])
+        new = v if v[0] == "call" else None
+        if new is None or new[1] != T.glob("mosaik.scenario.SimGroup") or dict(new[3]).get("parent", new[2][0] if new[2] else None) is None:
+            pr.append("the group that becomes current is not a new SimGroup with a parent")
+        else:
+            par = unalias(dict(new[3]).get("parent", new[2][0] if new[2] else None), s, fi)
+            if par != cur and not any(e.term[1] == par and T.strip(e.term[2]) == cur and e.idx < enter[-1].idx for e in s.of_kind("store")):
+                pr.append(f"the new group's parent is {T.show(par)[:50]}, not the group that was current on entry")
+    if not leave:
+        pr.append("the enclosing group is not made current again when the block is left")
+    else:
+        v = leave[-1].term[2]
+        binds = [b for b in s.of_kind("bind") if b.term[1] == v and b.idx < y.idx and not b.guards]
+        if v[0] != "var" or len(binds) != 1 or T.strip(binds[0].term[2]) != cur or (enter and binds[0].idx > enter[0].idx):
+            pr.append(f"on leaving, the current group is set to {T.show(v)[:50]} instead of the group that was current on entry, remembered in a local of this block: "
+                      "an inner block overwrites what is remembered anywhere else, so after it the outer block restores the wrong group")
+    c.add("group-scope", GROUP_CM, "group blocks nest: the entry group is remembered per block and restored", VIOLATED if pr else DISCHARGED, "; ".join(pr), fi.loc)
 
 
 def _gate(ctx: Ctx, c: Collector) -> None:
